@@ -378,8 +378,8 @@ func TestC06Shutdown(t *testing.T) {
 			for _, nested := range []bool{false, true} {
 				for _, dl := range deadlines {
 					for _, st := range stores {
-						for _, cancelKind := range []string{"deadline", "cancel"} {
-							if dl <= 0 && cancelKind == "cancel" {
+						for _, cancelKind := range []string{"deadline", "cancel", "own-context-type", "timeout-with-cause"} {
+							if dl < 0 && cancelKind != "deadline" || dl == 0 && (cancelKind == "cancel" || cancelKind == "timeout-with-cause") {
 								continue
 							}
 							idx++
@@ -440,9 +440,20 @@ func scenario(t *testing.T, run *vk.Run, sig string, d1, d2 time.Duration, neste
 		ctx := context.Background()
 		var cancel context.CancelFunc = func() {}
 		switch {
+		case dl >= 0 && cancelKind == "own-context-type":
+			// the caller's own Context implementation around a context that stays live
+			oc := &ownCtx{Context: context.Background(), done: make(chan struct{})}
+			ctx = oc
+			if dl == 0 {
+				oc.fire()
+			} else {
+				go func() { time.Sleep(dl); oc.fire() }()
+			}
 		case dl == 0:
 			ctx, cancel = context.WithCancel(ctx)
 			cancel()
+		case dl > 0 && cancelKind == "timeout-with-cause":
+			ctx, cancel = context.WithTimeoutCause(ctx, dl, errors.New("verif: the caller's own cause"))
 		case dl > 0 && cancelKind == "deadline":
 			ctx, cancel = context.WithTimeout(ctx, dl)
 		case dl > 0:
@@ -458,8 +469,8 @@ func scenario(t *testing.T, run *vk.Run, sig string, d1, d2 time.Duration, neste
 		nontrivial := dl > 0
 		switch {
 		case ctxFirst && dl > 0 || (dl == 0 && total > 0):
-			if err == nil || !(errors.Is(err, context.Canceled) || errors.Is(err, context.DeadlineExceeded)) {
-				run.Violation("shutdown:nil-before-work-done", "Shutdown returned "+fmt.Sprint(err)+" although the context ended before the asynchronous work ("+sig+")", witness)
+			if err == nil || !(errors.Is(err, context.Canceled) || errors.Is(err, context.DeadlineExceeded)) || !errors.Is(err, ctx.Err()) {
+				run.Violation("shutdown:nil-before-work-done", "Shutdown returned "+fmt.Sprint(err)+" although the context ended (Err() = "+fmt.Sprint(ctx.Err())+") before the asynchronous work ("+sig+")", witness)
 			}
 			if running.Load() == 0 && err == nil {
 				// covered above
@@ -535,6 +546,29 @@ func scenario(t *testing.T, run *vk.Run, sig string, d1, d2 time.Duration, neste
 }
 
 var _ = evt.NumPlain
+
+// ownCtx is a caller-defined Context: it wraps a context that stays live and ends on its own terms.
+type ownCtx struct {
+	context.Context
+	mu   sync.Mutex
+	done chan struct{}
+	err  error
+}
+
+func (c *ownCtx) Done() <-chan struct{} { return c.done }
+func (c *ownCtx) Err() error {
+	c.mu.Lock()
+	defer c.mu.Unlock()
+	return c.err
+}
+func (c *ownCtx) fire() {
+	c.mu.Lock()
+	if c.err == nil {
+		c.err = context.Canceled
+		close(c.done)
+	}
+	c.mu.Unlock()
+}
 
 // TestC06WaitStorm: several goroutines loop on Wait while a publisher alternates a quick and a slow
 // asynchronous publish and waits: the count of in-flight handlers crosses zero again and again
